@@ -279,7 +279,7 @@ def spaces(tier, seed):
                                 describe='all plot_sig/plot_extrema/plot_zerox combinations and plot_cyclepoints_array with every subset of kinds',
                                 bounds={'windows': len(w_coarse), 'kinds': len(cp_all) - 1 + len(arr_kinds)}))
         summ = [['summary', True, True, 'function'], ['summary', False, True, 'function'], ['summary', False, False, 'function']]
-        out.append(ProductSpace('summary-fs%d' % fs, [words, cfg, w_mid if not q else w_mid[::2] + [w for w in w_mid if w and w[0] in (29, 57, 58)][:6], summ], evaluate,
+        out.append(ProductSpace('summary-fs%d' % fs, [words, cfg, w_mid if not q else w_mid[::2] + [w for s0 in (29, 57, 58) for w in [x for x in w_mid if x and x[0] == s0][:4]], summ], evaluate,
                                 describe='plot_burst_detect_summary x plot_only_result x interp', bounds={'windows': len(w_mid)}))
         out.append(ProductSpace('object-plot-fs%d' % fs, [words[:2], cfg, w_coarse, [['summary', True, True, 'object'], ['summary', False, True, 'object']]],
                                 evaluate, describe='Bycycle.plot (after load)', bounds={'windows': len(w_coarse)}))
